@@ -3035,6 +3035,15 @@ function visitors.FuncDef(context, node, opts)
       elseif symbol.defnode ~= node then -- promote to variable
         symbol.comptime = false
         symbol.staticstorage = false
+        if symbol.scope ~= context.rootscope and context.generator ~= 'lua' and symbol.usedby then
+          -- the function became a local variable of its function, other functions cannot access it
+          local ownersym = symbol.scope:get_up_function_scope().funcsym
+          for funcsym in next,symbol.usedby do
+            if funcsym ~= ownersym then
+              varnode:raisef("attempt to access upvalue '%s', but closures are not supported", symbol.name)
+            end
+          end
+        end
       end
     end
   end
